@@ -1414,3 +1414,11 @@ case("c03-refactor-skip-branch-first", "C03", "refactor", [(H + "start_stage/han
 case("c01-queue-push-inherits-message-id", "C01", "mutant", [("src/stabilize/queue/sqlite/queue.py", "        message_id = str(uuid.uuid4())", "        message_id = message.message_id or str(uuid.uuid4())")], "C01.R5")
 case("c01-refactor-row-id-helper", "C01", "refactor", [("src/stabilize/queue/sqlite/queue.py", "        message_id = str(uuid.uuid4())", "        row_identity = uuid.uuid4()\n        message_id = str(row_identity)")])
 case("c06-jump-without-source-guard", "C06", "mutant", [(H + "jump_to_stage/handler.py", "            if source_stage.status != WorkflowStatus.RUNNING:", "            if source_stage.status.is_complete and False:")], "C06.R2")
+case("c11-choice-claimed-by-any-left-sibling", "C11", "mutant", [(H + "start_stage/conditions.py", "            if s.status != WorkflowStatus.NOT_STARTED and s.start_time is not None:", "            if s.status != WorkflowStatus.NOT_STARTED:")], "C11.R6")
+case("c11-refactor-choice-claimed-any", "C11", "refactor", [(H + "start_stage/conditions.py", """        for s in all_stages:
+            if s.id == stage.id:
+                continue
+            if s.deferred_choice_group != stage.deferred_choice_group:
+                continue""", """        for s in all_stages:
+            if s.id == stage.id or s.deferred_choice_group != stage.deferred_choice_group:
+                continue""")])
